@@ -5,6 +5,7 @@
 (* A string is a sequence of symbols (one symbol = one character class,    *)
 (* concretised by the Go driver):                                          *)
 (*   q '   d "   b `   k \   D $   E E   m -   s /   a *   n LF   r CR     *)
+(*   W Z (upper case)   9 1 (digit)   U _ (underscore)                      *)
 (*   _ TAB   w x   u e-acute (2 bytes, >=0x80)   ; ;   P __STR_0__         *)
 (*   J __IDENT_0__   Macros: space-padded plain code (keywords, names,     *)
 (*   parentheses)   Paths: a file path without quote/comment characters.   *)
@@ -53,8 +54,9 @@ Pv(x, i) == IF i > 1 THEN x[i-1] ELSE "$start"
 Rep(n, v) == [t \in 1..n |-> v]
 
 \* identifier characters: DuckDB (letters, digits, _, bytes >= 0x80) / arc's isIdentifierByte on the LAST byte
-DIdent(c) == c \in {"w", "E", "P", "J", "u"} \cup Paths
-AIdent(c) == c \in {"w", "E", "P", "J"} \cup Paths
+\* W = upper-case letter (Z), 9 = digit (1), U = underscore
+DIdent(c) == c \in {"w", "W", "9", "U", "E", "P", "J", "u"} \cup Paths
+AIdent(c) == c \in {"w", "W", "9", "U", "E", "P", "J"} \cup Paths
 Width(c)  == CASE c = "u" -> 2 [] c = "P" -> 9 [] c = "J" -> 11
                [] c \in Macros \cup Paths -> 8 [] OTHER -> 1
 
@@ -73,7 +75,8 @@ FindSub(x, pat, from) ==
 (* DuckLex *)
 \* index of the `$` that closes a dollar-quote OPENER starting at x[i] = "D", or 0
 DTagEnd(x, i) ==
-    LET C == {j \in (i+1)..Len(x) : x[j] = "D" /\ \A t \in (i+1)..(j-1) : DIdent(x[t])}
+    \* tag = identifier characters (digits allowed, but not as the first character)
+    LET C == {j \in (i+1)..Len(x) : x[j] = "D" /\ (\A t \in (i+1)..(j-1) : DIdent(x[t])) /\ (j > i+1 => x[i+1] # "9")}
     IN IF C = {} THEN 0 ELSE CHOOSE j \in C : \A j2 \in C : j <= j2
 
 RECURSIVE DCode(_, _, _, _), DStr(_, _, _, _), DDol(_, _, _, _), DLine(_, _, _), DBlock(_, _, _, _)
@@ -133,7 +136,8 @@ ATagEnd(x, i) ==
     ELSE LET C == {j \in (i+1)..Len(x) : x[j] = "D"} IN
          IF C = {} THEN 0
          ELSE LET j == CHOOSE j \in C : \A j2 \in C : j <= j2 IN
-              IF \A t \in (i+1)..(j-1) : x[t] \in {"w", "E", "P", "J"} THEN j ELSE 0
+              \* isAlpha (letters, _) or a digit that is not the first tag byte
+              IF \A t \in (i+1)..(j-1) : x[t] \in {"w", "W", "U", "E", "P", "J"} \/ (x[t] = "9" /\ t > i+1) THEN j ELSE 0
 
 \* the quote loop shared by scanQuoted and the inline ' / " branch: i = first index after the opening
 \* quote; returns e = index just past the literal and the roles of x[start+1 .. e-1]
@@ -429,6 +433,9 @@ AlphaBlockQ  == {"s","a","q","w"}
 AlphaLineQ   == {"m","n","r","q","w"}
 AlphaPh      == {"P","q","w","_"}
 InBlock      == <<"s","a","H","a","s">>          \* a block comment around the hole: nesting witnesses that DuckDB can parse
+AfterTag9    == <<"D","w","9","D","H">>          \* after a dollar-quote opener whose tag ends in a digit
+AfterIdent   == <<"d","w","d","H">>              \* after the quoted identifier "z": repeats, case variants
+AfterLit     == <<"q","w","q","H">>              \* after the literal 'z'
 AfterUTag    == <<"D","u","D","H">>              \* after a dollar-quote opener with a non-ASCII tag
 JobsQuick == << [tpl |-> L, alpha |-> AlphaAll,     max |-> 3],
                 [tpl |-> L, alpha |-> AlphaQ5,      max |-> 6],
@@ -439,7 +446,11 @@ JobsQuick == << [tpl |-> L, alpha |-> AlphaAll,     max |-> 3],
                 [tpl |-> L, alpha |-> AlphaDollar,  max |-> 5],
                 [tpl |-> L, alpha |-> AlphaMisc,    max |-> 5],
                 [tpl |-> L, alpha |-> AlphaPh,      max |-> 4],
-                [tpl |-> L, alpha |-> {"u","E","q","w"}, max |-> 4] >>
+                [tpl |-> L, alpha |-> {"u","E","q","w"}, max |-> 4],
+                [tpl |-> AfterTag9, alpha |-> {"D","9","w","q"}, max |-> 4],      \* $z1$ ... : digits in a dollar tag
+                [tpl |-> L, alpha |-> {"D","9","U","W","q"}, max |-> 5],
+                [tpl |-> AfterIdent, alpha |-> {"d","w","W","_"}, max |-> 4],    \* "z" then the same / case-different identifier
+                [tpl |-> AfterLit,   alpha |-> {"q","w","W","_"}, max |-> 4] >>
 JobsThorough == << [tpl |-> L, alpha |-> AlphaAll,     max |-> 4],
                    [tpl |-> L, alpha |-> AlphaQuotes,  max |-> 5],
                    [tpl |-> L, alpha |-> AlphaQ5,      max |-> 7],
@@ -451,7 +462,11 @@ JobsThorough == << [tpl |-> L, alpha |-> AlphaAll,     max |-> 4],
                    [tpl |-> AfterUTag, alpha |-> AlphaDollar \cup {"_"}, max |-> 5],
                    [tpl |-> L, alpha |-> AlphaDollar,  max |-> 7],
                    [tpl |-> L, alpha |-> AlphaMisc \cup {"m","r"}, max |-> 5],
-                   [tpl |-> L, alpha |-> AlphaPh \cup {"d", "J"}, max |-> 5] >>
+                   [tpl |-> L, alpha |-> AlphaPh \cup {"d", "J"}, max |-> 5],
+                   [tpl |-> AfterTag9, alpha |-> {"D","9","w","q","U"}, max |-> 5],
+                   [tpl |-> L, alpha |-> {"D","9","U","W","q","w"}, max |-> 6],
+                   [tpl |-> AfterIdent, alpha |-> {"d","w","W","_","q"}, max |-> 6],
+                   [tpl |-> AfterLit,   alpha |-> {"q","w","W","_","d"}, max |-> 6] >>
 
 (* C14: statement templates.  The payload (a file-reading table function, a string in table position, *)
 (* a foreign db.table) is fixed; the holes are filled with lexical disguises.                          *)
@@ -464,6 +479,9 @@ TArp2 == TArp \o <<"H">>
 TBsc  == <<"K:sel", "H", "K:tagfrom", "q", "F:foreign", "q", "K:end">>            \* ... FROM '<file>'   (replacement scan)
 TAsc  == <<"K:sel", "H", "K:one", "K:tagfrom", "q", "F:foreign", "q", "K:end">>
 TBcj  == <<"K:sel", "H", "K:tagcj", "q", "F:foreign", "q", "K:b">>              \* ... FROM allowed.cpu a , '<file>' b   (comma join)
+TDsc  == <<"K:sel", "H", "K:tagfrom", "D", "w", "9", "D", "F:foreign", "D", "w", "9", "D", "K:end">>   \* FROM $z1$<file>$z1$
+TDsc2 == <<"K:sel", "H", "K:tagfrom", "D", "U", "W", "D", "F:foreign", "D", "U", "W", "D", "K:end">>   \* FROM $_Z$<file>$_Z$
+TDrp  == <<"K:sel", "H", "K:tagrp", "D", "w", "9", "D", "F:foreign", "D", "w", "9", "D", "K:close">>   \* read_parquet ( $z1$<file>$z1$ )
 TBdb  == <<"K:sel", "H", "K:tagdbt">>                                             \* ... FROM foreign.cpu
 TAdb  == <<"K:sel", "H", "K:one", "K:tagdbt">>
 LitA  == {"q","k","m","E","d","D","u"}
@@ -480,6 +498,9 @@ JobsC14Quick == << [tpl |-> TBrp,  alpha |-> LitA, max |-> 4],
                    [tpl |-> TBsc,  alpha |-> {"q","k","m","E","d"}, max |-> 4],
                    [tpl |-> TAsc,  alpha |-> {"s","a","q","m","n"}, max |-> 5],
                    [tpl |-> TBcj,  alpha |-> {"q","k","E","d"}, max |-> 3],
+                   [tpl |-> TDsc,  alpha |-> {"q","k","9"}, max |-> 3],
+                   [tpl |-> TDsc2, alpha |-> {"q","k","9"}, max |-> 3],
+                   [tpl |-> TDrp,  alpha |-> {"q","k","9"}, max |-> 3],
                    [tpl |-> TBdb,  alpha |-> {"q","k","m","E","d"}, max |-> 4],
                    [tpl |-> TAdb,  alpha |-> {"s","a","q","m","n"}, max |-> 5] >>
 JobsC14Thorough == << [tpl |-> TBrp,  alpha |-> LitA \cup {"b", "P"}, max |-> 4],
@@ -493,6 +514,9 @@ JobsC14Thorough == << [tpl |-> TBrp,  alpha |-> LitA \cup {"b", "P"}, max |-> 4]
                       [tpl |-> TBsc,  alpha |-> LitA, max |-> 5],
                       [tpl |-> TAsc,  alpha |-> CmtB \cup CmtL, max |-> 4],
                       [tpl |-> TBcj,  alpha |-> LitA, max |-> 4],
+                      [tpl |-> TDsc,  alpha |-> {"q","k","9","D","w"}, max |-> 4],
+                      [tpl |-> TDsc2, alpha |-> {"q","k","9","D","w"}, max |-> 4],
+                      [tpl |-> TDrp,  alpha |-> {"q","k","9","D","w"}, max |-> 4],
                       [tpl |-> TBdb,  alpha |-> LitA, max |-> 5],
                       [tpl |-> TAdb,  alpha |-> CmtB \cup CmtL, max |-> 4] >>
 =============================================================================
